@@ -78,22 +78,27 @@ def _write_one(prop, r, src, cx, hit, tried, error):
         doc['failing_input'] = r['native_case']; doc['native_failures'] = r.get('native_failures'); doc['source'] = 'native search'
     elif hit is not None:
         doc['failing_input'], doc['native_failures'] = hit; doc['source'] = 'solver model'
-    elif _has_native(prop):
+    elif _has_native(prop) or r.get('meta', {}).get('kind') == 'frame':
         try:
-            if prop not in _CORPUS:          # one native corpus run per check run
-                corpus = native(dict(cmd='corpus', prop=prop, seed=getattr(cx, 'seed', 0), n=60 if cx.tier == 'quick' else 400))
-                out = native(dict(cmd='check', prop=prop, cases=corpus), timeout=3600)
+            # a failed frame obligation (write to state that outlives the call) is replayed by the history checker of C20: call
+            # sequences on shared objects compared with fresh-state executions
+            np_ = 'C20' if r.get('meta', {}).get('kind') == 'frame' else prop
+            key_ = prop if np_ == prop else prop + '/frame'
+            if key_ not in _CORPUS:          # one native corpus run per check run
+                corpus = native(dict(cmd='corpus', prop=np_, seed=getattr(cx, 'seed', 0), n=(60 if cx.tier == 'quick' else 400) if np_ == prop else 12))
+                out = native(dict(cmd='check', prop=np_, cases=corpus), timeout=3600)
                 h = None
                 from .check import split_known_native
                 for c, fails in zip(corpus, out):
-                    fails, _k = split_known_native(prop, fails)
+                    fails, _k = split_known_native(np_, fails)
                     if fails and not any(str(f).startswith('CHECKER-EXCEPTION') for f in fails):
                         h = (c, fails); break
-                _CORPUS[prop] = (len(corpus), h)
-            n_, h = _CORPUS[prop]
+                _CORPUS[key_] = (len(corpus), h)
+            n_, h = _CORPUS[key_]
             tried += n_
             if h is not None:
-                doc['failing_input'], doc['native_failures'] = h; doc['source'] = 'native corpus'
+                doc['failing_input'], doc['native_failures'] = h; doc['source'] = 'native corpus' if np_ == prop else 'native history replay (checker of C20)'
+                if np_ != prop: doc['native_prop'] = np_
         except Exception as x:
             doc['replay_error'] = "%s: %s" % (type(x).__name__, x)
     doc['native_cases_tried'] = tried
@@ -122,7 +127,7 @@ def main(argv=None):
         print("no concrete failing input stored (no-failing-input-found); solver output:")
         print(json.dumps(doc.get('solver'), indent=1)); print(json.dumps(doc.get('model'), indent=1))
         return 0
-    out = native(dict(cmd='check', prop=doc['property'], cases=[doc['failing_input']]))
+    out = native(dict(cmd='check', prop=doc.get('native_prop', doc['property']), cases=[doc['failing_input']]))
     print("input:", json.dumps(doc['failing_input']))
     if out[0]:
         for f in out[0]: print("FAIL:", f)
